@@ -23,6 +23,7 @@ func runC01(p *core.Prog, r *core.Result) {
 		"R1.5 a function target is up to date only if forced-rerun is recorded, or its environment is unchanged and every declared output exists",
 		"R1.6 generated files are linked to their generator on every full load, and a linked file depends on its generator",
 		"R1.7 records are written only after a successful body; a failed body records a pending re-run",
+		"R1.8 loading a target writes back the record read with every field but the documentation unchanged (type-driven, field by field): a failed target's pending re-run survives any number of loads that do not run it",
 	}
 	r.NotDecided = []string{"equality of the files produced with a from-scratch build for any particular history", "that the Starlark compiler's ModuleEnv captures everything a function can observe", "completeness of the environment (decided under C08 R8.5) and injectivity of the codec (decided under C07)"}
 	m := buildEvalModel(p, r, "R1.0")
@@ -200,6 +201,9 @@ func runC01(p *core.Prog, r *core.Result) {
 
 	// ---- R1.7
 	checkRecordWrites(p, r, m, "R1.7", "R1.7")
+
+	// ---- R1.8 a load preserves the record (a pending re-run survives loads that do not run the target)
+	checkLoadRewritesRead(p, r, "R1.8")
 }
 
 // checkStampDependsOnDeps: R1.3.
@@ -223,13 +227,13 @@ func checkStampDependsOnDeps(p *core.Prog, r *core.Result, m *evalModel) {
 		})
 	}
 	n := 0
-	for _, s := range m.Saves {
+	for _, w := range m.recordWrites() {
+		s, lit := w.Site, w.Lit
 		nn, known := p.FactsAt(s).ErrNonNil(evalErr)
 		if !known || nn {
 			continue
 		}
 		n++
-		lit := m.savedLiteral(s)
 		// what dependents compare: runTarget.data (persisted as Data). Either must carry dependency information.
 		ok := false
 		for name, v := range lit.Fields {
@@ -238,6 +242,11 @@ func checkStampDependsOnDeps(p *core.Prog, r *core.Result, m *evalModel) {
 			}
 			if depends(v) {
 				ok = true
+			}
+			for _, a := range lit.Via[name] {
+				if depends(a) {
+					ok = true
+				}
 			}
 		}
 		core.Instrs(fn, func(in ssa.Instruction) {
